@@ -1056,8 +1056,11 @@ func setChild(md map[uint32]*metadataEntry, pb *bolt.Bucket, pid uint32, base st
 	if md[pid].children == nil {
 		md[pid].children = make(map[string]childEntry)
 	}
+	old, existed := md[pid].children[base]
 	md[pid].children[base] = childEntry{base, id}
-	if isDir {
+	if isDir && !(existed && old.id == id) {
+		// A subdirectory whose entry is repeated in the TOC (or that was created
+		// implicitly before its own entry) still is one subdirectory.
 		numLink, _ := binary.Varint(pb.Get(bucketKeyNumLink))
 		if err := putInt(pb, bucketKeyNumLink, numLink+1); err != nil {
 			return fmt.Errorf("cannot add numlink for children: %w", err)
